@@ -82,6 +82,9 @@ type CCase struct {
 	Ops  []COp    `json:"ops"`
 	FS   bool     `json:"fs"`   // loader 2 is a FileSystemLoader on a scratch directory
 	Auto bool     `json:"auto"` // auto-reload is on from the start
+	// Chain: the engine has ONE loader, a ChainLoader over the two (histories without auto-reload only: a chain
+	// reports no time stamps); the version served and the cached names are compared, the Load-call counters are not
+	Chain bool `json:"chain"`
 }
 
 func newCounting() countingLoader {
@@ -95,10 +98,15 @@ type cacheWorld struct {
 	fs *fsLoader
 }
 
-func newCacheWorld(fs bool) *cacheWorld {
+func newCacheWorld(fs, chain bool) *cacheWorld {
 	w := &cacheWorld{e: twig.New()}
 	c1 := newCounting()
 	w.l1 = &c1
+	if chain {
+		w.l2 = &tsLoader{newCounting()}
+		w.e.RegisterLoader(twig.NewChainLoader([]twig.Loader{w.l1, w.l2}))
+		return w
+	}
 	w.e.RegisterLoader(w.l1)
 	if fs {
 		dir, err := os.MkdirTemp("", "verif-c15-")
@@ -267,7 +275,7 @@ func describe(op *COp) string {
 
 func runCacheHist(c *CCase, rec *bufio.Writer, traceNo int) (res Result) {
 	res = Result{Prop: c.Prop, Key: c.Key, Tags: c.Tags, Pass: true, Runs: len(c.Ops)}
-	w := newCacheWorld(c.FS)
+	w := newCacheWorld(c.FS, c.Chain)
 	defer w.close()
 	if c.Auto {
 		w.e.SetAutoReload(true)
@@ -292,7 +300,11 @@ func runCacheHist(c *CCase, rec *bufio.Writer, traceNo int) (res Result) {
 			rec.WriteByte('\n')
 		}
 		if len(op.Obs.Loads) == 2 {
-			if d := sameObs(op.Obs, got); d != "" {
+			want := op.Obs
+			if c.Chain {
+				want.Loads = got.Loads
+			}
+			if d := sameObs(want, got); d != "" {
 				res.Pass = false
 				res.Fails = append(res.Fails, Fail{Run: fmt.Sprintf("op%d", i+1), Why: "state-differs", Got: d + " " + msg, Src: strings.Join(trail, " ; ")})
 				return
